@@ -22,6 +22,8 @@
 (*             busy inside a step that never returns, or one nobody wakes, keeps the process alive; latent). *)
 (*             "RendezvousSignal" is HYPOTHETICAL (capacity-0 handler channel): *)
 (*             it shows that Terminates constrains the shutdown handshake in the busy state.                       *)
+(*             "HandlerPanics" / "HandlerPanicPoisons" (a DAP request can kill the debug thread, possibly holding *)
+(*             the context lock), "DeadThreadFailsJoin" (join().expect(..) turns that into exit 101 at shutdown).  *)
 (* With a deviation removed the model is the candidate repair: no unique ownership needed to join the IO   *)
 (* threads; accept is woken when the flag is set.                                                          *)
 EXTENDS ShutdownOps
@@ -50,13 +52,18 @@ CLaunch   == dapc = "connected" /\ s.d = "session" /\ s.mach = "none" /\ s' = [s
 CPause    == dapc = "connected" /\ s.d = "session" /\ s.mach = "running" /\ s' = [s EXCEPT !.mach = "paused"] /\ UNCHANGED <<lspc, dapc, goal>>
 CGone     == dapc = "connected" /\ s.d = "session" /\ s' = [DEndSess(s) EXCEPT !.mach = "none"] /\ dapc' = "gone" /\ UNCHANGED <<lspc, goal>>
 CStepBusy == dapc = "connected" /\ s.d = "session" /\ s.mach = "paused" /\ s' = DBusy(s) /\ UNCHANGED <<lspc, dapc, goal>>
+(* a DAP request whose handler panics ("HandlerPanics": pause between launch and configurationDone; with "HandlerPanicPoisons"     *)
+(* also while holding the context lock: launch without a mos.toml)                                                                 *)
+CKill     == /\ dapc = "connected" /\ s.d = "session" /\ "HandlerPanics" \in Deviations
+             /\ \E p \in (IF "HandlerPanicPoisons" \in Deviations THEN BOOLEAN ELSE {FALSE}) : s' = DKill(s, p)
+             /\ UNCHANGED <<lspc, dapc, goal>>
 CGoneBusy == dapc = "connected" /\ s.d = "busy" /\ dapc' = "gone" /\ UNCHANGED <<s, lspc, goal>>       \* nobody is reading the socket
 
 (* main thread *)
 Drain   == s.m = "drain" /\ Srv(MLeft(s))             \* the reader thread stops after `exit`: the receiver closes
 Unwrap  == s.m = "left" /\ Srv(MUnwrap(s, Deviations))
 SetFlag == s.m = "io" /\ Srv(MSetFlag(s, Deviations))
-Join    == MJoinEn(s, Deviations) /\ Srv(MJoin(s))
+Join    == MJoinEn(s, Deviations) /\ Srv(MJoin(s, Deviations))
 (* debug thread *)
 Top     == DTopEn(s) /\ s.exit = -1 /\ Srv(DTop(s))
 Bind    == s.d = "new" /\ s.exit = -1 /\ Srv(DBind(s))
@@ -71,7 +78,7 @@ WakeGone == s.d = "session" /\ s.flag /\ dapc # "connected" /\ s.exit = -1 /\ Sr
 MainNext == Drain \/ Unwrap \/ SetFlag \/ Join
 DbgNext  == Top \/ Bind \/ Reg \/ Sig \/ Drop \/ Wake \/ WakeGone
 LspNext  == CInit \/ CShutdown \/ CExit \/ CClose
-DapNext  == CConnect \/ CLaunch \/ CPause \/ CGone \/ CStepBusy \/ CGoneBusy
+DapNext  == CConnect \/ CLaunch \/ CPause \/ CGone \/ CStepBusy \/ CGoneBusy \/ CKill
 Next == MainNext \/ DbgNext \/ LspNext \/ DapNext
 (* every step of the server threads that is not blocked is eventually taken; the LSP client carries out its goal; *)
 (* the DAP client owes nothing (an attached, idle debugger must not keep the process alive)                        *)
